@@ -16,7 +16,7 @@ checks = {
  "C03": ("INTERVAL, ASHIFT incl. saturated shift counts, ROUND (vertical zoom-out floors; sign-only floor corrections), NOSKIP (no input ID skipped on a partial seen-test), DISTINCT (every success return de-duplicated), KIND-CALL/KIND-LAYOUT (axes wired independently, every output field at the zoom of its own axis), AXISSYM (x and y bounds isomorphic), NOCLAMP (no index clamp / range check in the per-axis zoom functions; no constant vertical ID emitted), narrowing of an x/y/f index to fewer than 64 bits, WRAPPER, GUARD",
          "not decided: the child range is exactly [i*2^d,(i+1)*2^d-1] and the 4^dh*2^dv count (value arithmetic)",
          "component-kind inference, rounding-mode classification, distinctness lattice, sibling isomorphism on SSA"),
- "C04": ("ROUND (ancestor floors below ground), DISTINCT, ELIGIBILITY (3x3 ordering enumeration: pass-through iff coarser on some axis), UNIT-ZOOM (the unit zooms of the division are final per-axis maxima over all inputs: not a running maximum still in use, not one element's zooms), NOSKIP (no input, unit or group dropped), CHUNK (a split of the input into chunks covers every element), WINDOW-APPEND (no uncapped sub-slice window stored where it is later appended to: groups cannot overwrite each other), CACHE-KEY, KIND rules, WRAPPER, GUARD",
+ "C04": ("DELEGATE-ONCE, ROUND (ancestor floors below ground), DISTINCT, ELIGIBILITY (3x3 ordering enumeration: pass-through iff coarser on some axis), UNIT-ZOOM (the unit zooms of the division are final per-axis maxima over all inputs: not a running maximum still in use, not one element's zooms), NOSKIP (no input, unit or group dropped), CHUNK (a split of the input into chunks covers every element), WINDOW-APPEND (no uncapped sub-slice window stored where it is later appended to: groups cannot overwrite each other), CACHE-KEY, KIND rules, WRAPPER, GUARD",
          "not decided: region equality, density threshold, idempotence (value-level)",
          "rounding-mode classification + finite ordering enumeration over the CFG"),
  "C05": ("MINSEL/REUSE (both IDs aligned to the per-axis minimum zoom with ChangeExtendedSpatialIdsZoom), EXISTS-LOOP (array form = disjunction, false for empty lists), EVERY-ELEMENT/TYPESTATE (every ID inserted/queried, empty tree never queried), RANGEUSE (both key bounds consumed: known finding D8), ERRUSED, NOPARTIAL, GUARD",
@@ -25,7 +25,7 @@ checks = {
  "C06": ("SIGNED-FIELD, DISTINCT, INCLUDES (end-point voxels in every result), EARLY-SINGLE, PASSTHRU (zooms and midpoint reporting through the recursion), THRESHOLD-AXIS (each termination threshold depends on the zoom of one axis only), WRAPPER, GUARD",
          "NOT decided: absence of gaps, 26-connectivity, 'only voxels the segment touches', termination thresholds (float midpoints vs voxel sizes)",
          "accumulator/def-use analysis, distinctness lattice, call-graph value identity"),
- "C07": ("KIND-LAYOUT (hZoom/x/y/vZoom/f with zooms copied; no float-formatted index), REM-SIGN (no bare % on a moved index), FLOATGUARD (no refusal of a shift decided through float64 of the vertical index), AXISSYM (x and y wrapped by isomorphic computations and conditions), NOWRAP-F (vertical index exactly f+dv), RANGE (symbolic interval analysis: printed x,y in [0, 2^h-1] on every path), GUARD (malformed ID -> empty ID)",
+ "C07": ("LENCAP, INTERVAL, KIND-LAYOUT (hZoom/x/y/vZoom/f with zooms copied; no float-formatted index), REM-SIGN (no bare % on a moved index), FLOATGUARD (no refusal of a shift decided through float64 of the vertical index), AXISSYM (x and y wrapped by isomorphic computations and conditions), NOWRAP-F (vertical index exactly f+dv), RANGE (symbolic interval analysis: printed x,y in [0, 2^h-1] on every path), GUARD (malformed ID -> empty ID)",
          "not decided: that the float Pow/Mod/repeated-addition arithmetic equals mod 2^h (hence the algebraic laws)",
          "component-kind inference + expression-graph isomorphism"),
  "C08": ("RADIX (a fused counter over a product of spans is decoded positionally: strides totally ordered by inclusion and dividing the bound), REM-SIGN, STENCIL (partial evaluation of the constant loops: exactly the 6/8/26 offset sets, each once; N-layer nest = full box minus origin for every input ID), VIASHIFT, DISTINCT, GUARD (negative layers)",
@@ -37,28 +37,28 @@ checks = {
  "C10": ("SIGNED-FIELD, INPLACE-GROW (no list re-using the storage of the list being ranged over grows by more than one element per iteration), KIND-LAYOUT/KIND-STORE/KIND-CALL (parser, printer, FieldParams and both notation permutations agree position by position), MAPORDER, ELEMENTWISE, MAXSEL (every zoom change of the expansion targets max(h,v); no ordering loses the voxel), NOCLAMP, narrowing index conversions, ID text used as a strings.Trim cut set, GUARD (arity)",
          "not decided: 4^d / 2^d count and region equality of the expansion",
          "component-kind/layout inference + ordering enumeration"),
- "C11": ("ECHO (every scalar the group constructor receives is a parameter of the request, the same value on every path: not a constant, not arithmetic on it, not reset on some paths), KIND-CALL (groups carry the request's zooms/height/base parameters; role wiring of HorizontalZoom/VerticalZoom), DISTINCT-PAIR (miss-then-insert on the cross-ID map), UNTRIMMED (a pre-sized pair list is cut to its fill count), no quadkey through float64, NOSKIP in both directions, ROUND over the closure, PER-ITERATION (fresh scratch lists), ELEMENTWISE (no cache carried between IDs), NOFLOAT (integer-only encoder/decoder), REUSE, ERRUSED, GUARD (zoom domains, arity, integer fields, maxHeight<minHeight)",
+ "C11": ("DELEGATE-ONCE, ECHO (every scalar the group constructor receives is a parameter of the request, the same value on every path: not a constant, not arithmetic on it, not reset on some paths), KIND-CALL (groups carry the request's zooms/height/base parameters; role wiring of HorizontalZoom/VerticalZoom), DISTINCT-PAIR (miss-then-insert on the cross-ID map), UNTRIMMED (a pre-sized pair list is cut to its fill count), no quadkey through float64, NOSKIP in both directions, ROUND over the closure, PER-ITERATION (fresh scratch lists), ELEMENTWISE (no cache carried between IDs), NOFLOAT (integer-only encoder/decoder), REUSE, ERRUSED, GUARD (zoom domains, arity, integer fields, maxHeight<minHeight)",
          "NOT decided: that the encoder is the bit interleaving and the decoder its inverse (loop-carried bit arithmetic)",
          "component-kind inference, dominance-based guard analysis, scenario path analysis"),
  "C12": ("ASHIFT/ROUND (all scaling is a signed shift = floor; no (b<<d | 1<<d) - 1 bit fill), RANGEUSE, INTERVAL (existence tests accept exactly [-2^z,2^z-1] / [0,2^z-1]), OUTRANGE (both returned bounds range-checked), UPPER-BOUND-FORM (scale(i+1)-1 only where the shift is known positive: found D11, fixed; D12 known finding), NOPARTIAL, KIND-LAYOUT (F vs key scale)",
          "NOT decided: the covering property itself (integer interval arithmetic over five unbounded parameters)",
          "rounding-mode classification + bound-expression shape analysis on SSA"),
- "C13": ("NOSKIP (no tile skipped on state kept from earlier tiles), KIND-STORE/KIND-CALL (hZoom,x,y copied field for field, vZoom = request's), RANGE-LOOP (emitted range = the two results of this tile's range call, value identity, also through a helper that hands the range on), CACHE-KEY (a memo of the range call is keyed by every varying argument), ELEMENTWISE, COMPOSE, DISTINCT (incl. sort+Compact under a comparator that ignores a varying field), CHUNK, NOPARTIAL, OUTRANGE, MAXSEL, GUARD (tile zooms two-sided; undecided region rows are tried with a concrete witness call)",
+ "C13": ("DELEGATE-ONCE (the spatial-ID form hands the whole list to the extended form in one call), NOPARTIAL incl. merged single-exit returns, NOSKIP (no tile skipped on state kept from earlier tiles), KIND-STORE/KIND-CALL (hZoom,x,y copied field for field, vZoom = request's), RANGE-LOOP (emitted range = the two results of this tile's range call, value identity, also through a helper that hands the range on), CACHE-KEY (a memo of the range call is keyed by every varying argument), ELEMENTWISE, COMPOSE, DISTINCT (incl. sort+Compact under a comparator that ignores a varying field), CHUNK, NOPARTIAL, OUTRANGE, MAXSEL, GUARD (tile zooms two-sided; undecided region rows are tried with a concrete witness call)",
          "not decided: that the emitted range is the covering range (C12's undecided part)",
          "component-kind inference + loop-bound value identity + call-graph composition"),
  "C14": ("REM-SIGN over the closure, INCLUDES (line IDs in every result variant: Unique/Union/Concat/appends flattened), FILTER-SUBSET (measured additions are current candidates behind distance < radius itself), LAYERFIT (layer counts = max fit over all line voxels), NOORDERDEP, DISTINCT, GUARD (negative radius, zooms, nil points)",
          "NOT decided: the geometric distance bound, radius-0 identity, termination of the layer fit",
          "value-identity and dominance analysis on SSA + ordering enumeration"),
- "C15": ("HANDPARSE (a hand-written decimal field parser has a cutoff test or a length bound of at most 18 and refuses a lone sign), SIGNED-FIELD (no digit-run tokenizer, no ParseUint over all components), GUARD table (94 rows, scenario path analysis: interval / nil / arity / parse-failure / option / order / empty-list facts; a success return reached only past tests of the argument that the analysis cannot evaluate is reported as undecided, one reached without any such test as violated), ERRUSED (no strconv error of caller text dropped), ERRSWALLOW (no callee error lost through a shadowed named result), PARSE-BASE (decimal only), FIELDGUARD (who writes Point fields, rounding direction of latitude, limit test dominates store), NOPARTIAL",
+ "C15": ("INDEX-SIGN (a table indexed by a signed parameter is bounded on both sides), LENCAP (no ID refused for being longer than a constant below 68 characters), NOPARTIAL incl. merged single-exit returns, HANDPARSE (a hand-written decimal field parser has a cutoff test or a length bound of at most 18 and refuses a lone sign), SIGNED-FIELD (no digit-run tokenizer, no ParseUint over all components), GUARD table (94 rows, scenario path analysis: interval / nil / arity / parse-failure / option / order / empty-list facts; a success return reached only past tests of the argument that the analysis cannot evaluate is reported as undecided, one reached without any such test as violated), ERRUSED (no strconv error of caller text dropped), ERRSWALLOW (no callee error lost through a shadowed named result), PARSE-BASE (decimal only), FIELDGUARD (who writes Point fields, rounding direction of latitude, limit test dominates store), NOPARTIAL",
          "not decided: the < 1e-10 magnitude of the latitude cut; panics inside third-party code for valid inputs; zoom fields inside well-formed IDs (excluded by the property's quantifier)",
          "abstract scenario propagation over CFGs with recursive callee summaries (no code executed, no solver)"),
  "C16": ("EFFECT-PARAM (no exported function writes caller data; type-filtered write sets), UNIT-ZOOM and NOSKIP (merge result independent of input order), NOORDERDEP (no positional use of map-ordered slices), MAPLOOP-COMMUTATIVE, DISTINCT / DISTINCT-PAIR rows, NONDET (no other nondeterminism source reachable)",
          "NOT decided: invariance of the result set under permutation / duplication of the input list in general (value-level confluence)",
          "interprocedural effect analysis + map-order taint"),
- "C18": ("PASSTHRU (altitude same value end to end; x/y exactly the transform's results), MAPORDER, ELEMENTWISE, ERRUSED (Safe transform error tested and mapped to the conversion error), CHUNK (batched conversion covers every point), CRS-ARGS (direction)",
+ "C18": ("FIELDGUARD (SetAlt / SetLon store their parameter itself: no normalising phi, no helper that computes), PASSTHRU (altitude same value end to end; x/y exactly the transform's results), MAPORDER, ELEMENTWISE, ERRUSED (Safe transform error tested and mapped to the conversion error), CHUNK (batched conversion covers every point), CRS-ARGS (direction)",
          "NOT decided: Mercator numerics, 2e-10 round trip, agreement with the grid constants",
          "value-identity analysis on SSA"),
- "C20": ("ASHIFT (signed shift = floor), EMPTYGUARD, EFFECT-PARAM (helpers leave arguments alone), SETOP-SHAPE (the set-expression term derived from each helper - keys(set{..}), filter(P, hit|miss, set{..}), contains(P, x) - equals the definition of the operation it is named after; early exits are violations), MATMUL-INDEX",
+ "C20": ("EXTREMUM (Max/Min replace the best value under a direct comparison, not one of arithmetic on the operands), ASHIFT (signed shift = floor), EMPTYGUARD, EFFECT-PARAM (helpers leave arguments alone), SETOP-SHAPE (the set-expression term derived from each helper - keys(set{..}), filter(P, hit|miss, set{..}), contains(P, x) - equals the definition of the operation it is named after; early exits are violations), MATMUL-INDEX",
          "NOT decided: Max/Min boundingness, set laws as value equalities, Combinations, vector/quaternion identities",
          "set-expression abstract domain over SSA + scenario path analysis + effect analysis"),
 }
